@@ -33,7 +33,7 @@ theorem okOrigin_not_kept (np : NP) (fi j : Nat) (y : T) (h : okOrigin y.origin 
   | _ => simp [keptElem]
 
 theorem runFree_get (np : NP) (fi : Nat) : ∀ (body : List T) (i g : Nat), runFree np fi i g body = true →
-    ∀ j, j < g → ∀ y, body[j]? = some y → putsFirst np [fi, i + j] y = true
+    ∀ j, j < g → ∀ y, body[j]? = some y → runElem np fi (i + j) y = true
   | [], _, _, _, _, _, _, hy => by simp at hy
   | x :: rest, i, 0, _, j, hj, _, _ => by omega
   | x :: rest, i, g + 1, h, j, hj, y, hy => by
@@ -55,7 +55,7 @@ theorem allOk_get : ∀ (l : List T), allOk l = true → ∀ (j : Nat) (y : T), 
 
 /-- the slice operation emitted at the head of a run only covers elements that are not in place -/
 theorem head_ops (mark : T) (np : NP) (fi : Nat) (ns : Option Nat) (i : Nat) (run : Run) (cur : List T) (x : T)
-    (rest : List T) (hwf : wfEs mark (x :: rest) = true) :
+    (rest : List T) (hwf : elemsOK mark (x :: rest) = true) :
     ∀ op ∈ (headState mark np fi ns i run cur x rest).1, ∃ n src pl, op = ⟨[], .putSlice i (i + n) src false pl⟩ ∧
       ∀ j, i ≤ j → j < i + n → ∃ y, (x :: rest)[j - i]? = some y ∧ keptElem np fi j y = false := by
   intro op hop
@@ -68,7 +68,7 @@ theorem head_ops (mark : T) (np : NP) (fi : Nat) (ns : Option Nat) (i : Nat) (ru
       obtain ⟨tid, pp, cfi, ci⟩ := v
       have hn : runLen tid pp cfi (ci + 1) rest ≤ rest.length := runLen_le _ _ _ _ _
       rw [detect_some _ _ _ _ _ _ _ _ _ _ _ _ hsh] at hop
-      simp only [wfEs, Bool.and_eq_true] at hwf
+      simp only [elemsOK, Bool.and_eq_true] at hwf
       by_cases ht : tid = 0
       · subst ht
         obtain ⟨⟨k, cs, rfl⟩, hC⟩ := sliceHead_zero mark np fi ns i x pp cfi ci hwf.1 hsh
@@ -80,13 +80,13 @@ theorem head_ops (mark : T) (np : NP) (fi : Nat) (ns : Option Nat) (i : Nat) (ru
           rw [Nat.add_comm 1, runFree]
           have h0 := hC 0
           simp only [Nat.add_zero] at h0
-          simp only [putsFirst, h0, Bool.not_false, Bool.true_and]
+          simp only [runElem, h0, Bool.not_false, Bool.true_and]
           exact runFree_runLen np fi i pp cfi ci hC rest 1
         have hlt : j - i < (T.node (.tree (some ⟨pp, cfi, some ci⟩)) k cs :: rest).length := by simp; omega
         refine ⟨_, List.getElem?_eq_getElem hlt, ?_⟩
         have := runFree_get np fi _ i _ hfree (j - i) (by omega) _ (List.getElem?_eq_getElem hlt)
         rw [show i + (j - i) = j by omega] at this
-        exact putsFirst_not_kept np fi j _ this
+        exact putsFirst_not_kept np fi j _ (runElem_putsFirst np fi j _ this)
       · have ht' : (tid == 0) = false := by simp [ht]
         simp only [ht', Bool.false_eq_true, if_false] at hop
         by_cases hok : allOk ((x :: rest).take (1 + runLen tid pp cfi (ci + 1) rest)) = true
@@ -128,7 +128,7 @@ theorem SliceOp_cons (mark : T) (np : NP) (fi i : Nat) (x : T) (rest : List T) (
 
 theorem slice_ops_char (mark : T) (np : NP) (fi : Nat) (ns : Option Nat) :
     ∀ (body : List T) (i : Nat) (run : Run) (cur bt : List T) (g : Nat),
-    wfEs mark body = true → elemSlots mark np fi i bt body → SI np fi i run cur body bt g →
+    wfEs mark body = true → elemSlots mark np fi false i bt body → SI np fi i run cur body bt g →
     ∀ op ∈ (recSliceGo mark np fi ns false i run cur body).ops, SliceOp mark np fi i body op
   | [], i, run, cur, bt, g, _, _, _, op, hop => by
     rw [recSliceGo_nil] at hop
@@ -142,7 +142,7 @@ theorem slice_ops_char (mark : T) (np : NP) (fi : Nat) (ns : Option Nat) :
     have IH : ∀ (run' : Run) (cur' : List T) (g' : Nat), SI np fi (i + 1) run' cur' rest bt.tail g' →
         ∀ op ∈ (recSliceGo mark np fi ns false (i + 1) run' cur' rest).ops, SliceOp mark np fi i (x :: rest) op :=
       fun run' cur' g' hs' op hop => SliceOp_cons mark np fi i x rest op
-        (slice_ops_char mark np fi ns rest (i + 1) run' cur' bt.tail g' hwf'.2 (elemSlots_tail mark np fi i bt x rest hsl) hs' op hop)
+        (slice_ops_char mark np fi ns rest (i + 1) run' cur' bt.tail g' hwf'.2 (elemSlots_tail mark np fi false i bt x rest hsl) hs' op hop)
     by_cases hk : run.skip > 0
     · rw [recSliceGo_skip _ _ _ _ _ _ _ _ _ _ hk] at hop
       unfold SI at hsi
@@ -153,9 +153,10 @@ theorem slice_ops_char (mark : T) (np : NP) (fi : Nat) (ns : Option Nat) :
       obtain ⟨hg, hfree, htail, hlen⟩ := hsi
       rw [recSliceGo_go _ _ _ _ _ _ _ _ _ _ hk] at hop
       have hdone : (List.replicate i T.nil).length = i := by simp
-      have hp := head_post mark np fi ns i run cur x rest bt (List.replicate i T.nil) g none 0 hwf hdone (by omega) hg hfree
+      have helems := wfEs_elemsOK mark _ hwf
+      have hp := head_post mark np fi ns i run cur x rest bt (List.replicate i T.nil) g none 0 helems hdone (by omega) hg hfree
         htail hlen
-      have hho := head_ops mark np fi ns i run cur x rest hwf
+      have hho := head_ops mark np fi ns i run cur x rest helems
       generalize headState mark np fi ns i run cur x rest = d at hop hp hho
       obtain ⟨ops0, cur1, run1⟩ := d
       simp only at hop hp hho
@@ -179,8 +180,9 @@ theorem slice_ops_char (mark : T) (np : NP) (fi : Nat) (ns : Option Nat) :
           = cur2 at hop
         generalize hoi : (if decide (i ≥ run1.lenRead) = true then [(⟨[], .putSlice i i .ast true [erase x]⟩ : Op)] else [])
           = opsIns at hop
-        obtain ⟨ok, tl, hdrop, _, hslot, hsi2⟩ := go_post mark np fi none 0 i run1 cur1 (List.replicate i T.nil) bt g1 x rest true
-          hdone hsl hsk0 hpr hg1 hfree1 htl1 hmax cur2 opsIns hc2 hoi
+        obtain ⟨ok, tl, hdrop, _, heh, _, hsi2⟩ := go_post mark np fi none 0 false i run1 cur1 (List.replicate i T.nil) bt g1 x rest
+          true hdone hsl hsk0 hpr hg1 hfree1 htl1 hmax cur2 opsIns hc2 hoi
+        have hslot := ElemHyp_plain mark np fi i ok x heh
         have hok : cur2[i]?.getD .nil = ok := by rw [getElem?_of_drop_cons hdrop]; rfl
         rw [hok] at hop
         have hins : ∀ op ∈ opsIns, SliceOp mark np fi i (x :: rest) op := by
@@ -276,14 +278,22 @@ theorem wfEs_get (mark : T) : ∀ (l : List T) (j : Nat) (y : T), wfEs mark l = 
 
 theorem wfFs_get (mark : T) : ∀ (l : List T) (j : Nat) (c : T), wfFs mark l = true → l[j]? = some c →
     (match c with
-     | .many _ md items => md ≠ 2 ∧ wfEs mark items = true
+     | .many _ md items => md ≠ 2 → wfEs mark items = true
      | c => wfN mark c = true)
   | [], _, _, _, hy => by simp at hy
   | x :: r, j, c, h, hy => by
     cases j with
     | zero =>
       simp at hy; subst hy
-      cases x <;> simp_all [wfFs]
+      cases x with
+      | many s md items =>
+        simp only [wfFs, Bool.and_eq_true] at h
+        intro hmd
+        have : (md == 2) = false := by simp [hmd]
+        simpa [this] using h.1
+      | nil => simp_all [wfFs]
+      | prim v => simp_all [wfFs]
+      | node o k cs => simp_all [wfFs]
     | succ j =>
       simp at hy
       have hr : wfFs mark r = true := by cases x <;> simp_all [wfFs]
@@ -443,7 +453,9 @@ theorem kept_node_aux (mark : T) (N : Nat) : ∀ (p : Path), p.length ≤ N → 
             (slot_mark mark _ (qOf l) [j] _ rfl) op' hmem
           simp [this]
         | many s md items =>
-          simp only at hmatch hwc
+          simp only [Bool.and_eq_true, bne_iff_ne, ne_eq] at hmatch hwc
+          obtain ⟨hmd2, hmatch⟩ := hmatch
+          have hwes := hwc hmd2
           cases p with
           | nil => simp at hmatch
           | cons i p' =>
@@ -458,12 +470,12 @@ theorem kept_node_aux (mark : T) (N : Nat) : ∀ (p : Path), p.length ≤ N → 
               cases m with
               | many s' md' mitems =>
                 simp only [fieldOK, Bool.and_eq_true, beq_iff_eq] at hfo
-                obtain ⟨rfl, rfl⟩ := hfo
+                obtain ⟨⟨rfl, rfl⟩, _⟩ := hfo
                 rw [hmm] at hmem
                 simp only [erase] at hmem
                 obtain ⟨lx, kx, csx, rfl, hinx⟩ := keptN_inPlace mark p' _ _ x hmatch
-                have hwx := wfEs_get mark items i _ hwc.2 hx
-                have := kept_many mark (qOf l) j s md items mitems i p' _ hwc.1 hwc.2 hmm hx (by simpa [keptElem] using hinx)
+                have hwx := wfEs_get mark items i _ hwes hx
+                have := kept_many mark (qOf l) j s md items mitems i p' _ hmd2 hwes hmm hx (by simpa [keptElem] using hinx)
                   (fun ok hs' op'' hm'' => ih p' (by simp at hp; omega) _ (.fst 0 (qOf l)) [j, i] ok hwx hmatch hs' op'' hm'') op' hmem
                 simp [this]
               | _ => simp [fieldOK] at hfo
